@@ -153,6 +153,7 @@ const (
 	verifOffAll
 	verifOffExact
 	verifOffTail // exact end, one byte more
+	verifOffEnds // end of every artifact, one byte more
 )
 
 func verifOffsets(sizes []int, mode int) []int {
@@ -165,6 +166,14 @@ func verifOffsets(sizes []int, mode int) []int {
 		return []int{E}
 	case verifOffTail:
 		return []int{E, E + 1}
+	case verifOffEnds:
+		c := []int{}
+		a := HeaderSizeLen + verifTokLen
+		for _, s := range sizes {
+			a += s
+			c = append(c, a)
+		}
+		return verifSortedUnique(append(c, E, E+1))
 	case verifOffAll:
 		var out []int
 		for o := 0; o <= E+verifExtra; o++ {
@@ -248,6 +257,7 @@ func verifBuildHeader(kind int, sizes []int, crcs []uint32) *proto.SnapshotHeade
 // candidate (else the representative ones of verifOffsets).
 type verifOpt struct {
 	nCuts    int  // number of split points (nCuts+1 Writes / Reads)
+	cutsBig  int  // if > 0: number of split points for header shapes with three artifacts
 	cutOffs  int  // verifOff*: where the stream may be split
 	lenOffs  int  // verifOff*: where the stream may end
 	restore  bool // scenario for Restore (no damaged magic: Restore does not look at it)
@@ -277,7 +287,11 @@ func verifScenario(opt verifOpt) *verifScn {
 	}
 	var logCuts []int
 	lo := 0
-	for c := 0; c < opt.nCuts; c++ {
+	nCuts := opt.nCuts
+	if opt.cutsBig > 0 && len(sc.sizes) >= 3 {
+		nCuts = opt.cutsBig
+	}
+	for c := 0; c < nCuts; c++ {
 		k := lo + verifChoice(verifName("cut", c), len(cand)-lo)
 		logCuts = append(logCuts, cand[k])
 		lo = k
@@ -297,7 +311,7 @@ func verifScenario(opt verifOpt) *verifScn {
 	// (the sink looks at the CRC fields only once the stream is complete; Restore after each artifact)
 	symCRC := opt.symbolic && full && (restore || logL == logE)
 	damaged := -1
-	if logL == logE && sc.kind == verifKindFull && !restore {
+	if logL == logE && sc.kind == verifKindFull && !restore && !opt.symbolic {
 		damaged = verifChoice("damagedMagic", len(sc.sizes)+1) - 1
 	}
 	off := 0
@@ -668,14 +682,14 @@ func VerifC10SinkCRC() {
 }
 
 // VerifC10Sink: every header shape, every stream length (representative offsets), declared CRCs
-// correct, 3 Writes (quick; split at the sparse offsets, 6 header shapes) / 4 Writes (thorough;
-// all header shapes).
+// correct, 3 Writes (2 for the shape with three artifacts) split at the sparse offsets, 6 header
+// shapes (quick) / 3 Writes split at the representative offsets, all header shapes (thorough).
 func VerifC10Sink() {
 	if verifTier() == 1 {
-		verifCheckSink(verifOpt{nCuts: 3, cutOffs: verifOffSparse, lenOffs: verifOffRepr, thorough: true})
+		verifCheckSink(verifOpt{nCuts: 2, cutOffs: verifOffRepr, lenOffs: verifOffRepr, thorough: true})
 		return
 	}
-	verifCheckSink(verifOpt{nCuts: 2, cutOffs: verifOffSparse, lenOffs: verifOffRepr})
+	verifCheckSink(verifOpt{nCuts: 2, cutsBig: 1, cutOffs: verifOffSparse, lenOffs: verifOffRepr})
 }
 
 // VerifC10SinkAnySplit: two Writes split at EVERY offset of the stream; stream of exact length
@@ -686,6 +700,11 @@ func VerifC10SinkAnySplit() {
 		return
 	}
 	verifCheckSink(verifOpt{nCuts: 1, cutOffs: verifOffAll, lenOffs: verifOffExact})
+}
+
+// VerifC10Sink4 (thorough only): 4 Writes split at the sparse offsets, the 6 quick header shapes.
+func VerifC10Sink4() {
+	verifCheckSink(verifOpt{nCuts: 3, cutOffs: verifOffSparse, lenOffs: verifOffRepr})
 }
 
 // VerifC10SinkAnySplit3 (thorough only): three Writes split at EVERY pair of offsets of a stream
@@ -758,19 +777,21 @@ func verifCatchRestore(r io.Reader, dst string) (n int64, err error, panicked bo
 }
 
 // VerifC10Restore: every header shape, every stream length (representative offsets), declared
-// CRCs correct, the stream arriving in 3 (quick) / 4 (thorough) Reads.
+// CRCs correct, the stream arriving in 3 Reads (2 for the shape with three artifacts; quick) /
+// 3 Reads split at the representative offsets, all header shapes (thorough).
 func VerifC10Restore() {
-	opt := verifOpt{nCuts: 2, cutOffs: verifOffSparse, lenOffs: verifOffRepr, restore: true}
+	opt := verifOpt{nCuts: 2, cutsBig: 1, cutOffs: verifOffSparse, lenOffs: verifOffRepr, restore: true}
 	if verifTier() == 1 {
-		opt = verifOpt{nCuts: 3, cutOffs: verifOffSparse, lenOffs: verifOffRepr, restore: true, thorough: true}
+		opt = verifOpt{nCuts: 2, cutOffs: verifOffRepr, lenOffs: verifOffRepr, restore: true, thorough: true}
 	}
 	verifCheckRestore(opt)
 }
 
 // VerifC10RestoreCRC: declared CRCs ANY 32-bit value, last byte of every artifact and the bytes
-// beyond the end symbolic; every stream length (representative offsets), two Reads.
+// beyond the end symbolic; streams ending at the end of any artifact or one byte beyond the
+// exact end, two Reads.
 func VerifC10RestoreCRC() {
-	verifCheckRestore(verifOpt{nCuts: 1, cutOffs: verifOffSparse, lenOffs: verifOffSparse, restore: true, symbolic: true, thorough: verifTier() == 1})
+	verifCheckRestore(verifOpt{nCuts: 1, cutOffs: verifOffSparse, lenOffs: verifOffEnds, restore: true, symbolic: true, thorough: verifTier() == 1})
 }
 
 func verifCheckRestore(opt verifOpt) {
@@ -857,15 +878,16 @@ func verifChunkReadAll(r io.Reader, sizes []int, limit int) ([]byte, error) {
 	return out, errors.New("verif: stream does not end")
 }
 
-// VerifC10Source: a database file and 0..2 WAL files of any content; the streamer built from
+// VerifC10Source: a database file and 0..2 WAL files of any content (symbolic bytes); the streamer built from
 // their paths delivers [length][header][db][wals...], the header states the files' sizes and
 // CRC-32Cs, Len() is the number of bytes delivered.
 func VerifC10Source() {
 	verifPanicsAreViolations()
 	dir := verifRootDir()
-	maxDB, maxWAL := 2, 2
+	// sizes: quick db 0 or 2, WALs 0 or 1 bytes; thorough db 0..4, WALs 0..3
+	maxDB, maxWAL, stepDB := 1, 1, 2
 	if verifTier() == 1 {
-		maxDB, maxWAL = 4, 3
+		maxDB, maxWAL, stepDB = 4, 3, 1
 	}
 	nw := verifChoice("wals", 3)
 	var contents [][]byte
@@ -876,6 +898,9 @@ func VerifC10Source() {
 			m = maxDB
 		}
 		k := verifChoice(verifName("size", i), m+1)
+		if i == 0 {
+			k *= stepDB
+		}
 		b := verifBytes(verifName("file", i), k)
 		p := filepath.Join(dir, "src-"+string(rune('0'+i)))
 		verifPutFile(p, b)
@@ -895,7 +920,7 @@ func VerifC10Source() {
 	total, err := str.Len()
 	verifAssert("C10-streamer-len-ok", err == nil)
 
-	bufs := []int{1 + verifChoice("buf0", 2), 2 + 3*verifChoice("buf1", 2)}
+	bufs := []int{1 + verifChoice("buf0", 2), 3}
 	got, err := verifChunkReadAll(str, bufs, 64)
 	verifAssert("C10-streamer-reads-to-eof", err == nil)
 	verifAssert("C10-streamer-closes", str.Close() == nil)
